@@ -3,6 +3,10 @@
 #include "d_array.h"
 #include "d_string.h"
 #include "diagnostics/d_stacktrace.h"
+#include "verif_hooks.h"
+#ifdef SQFVM_RUNTIME_VERIF
+sqf::runtime::verif::hooks sqf::runtime::verif::g_hooks = {};
+#endif
 
 #include <optional>
 
@@ -15,8 +19,10 @@ static sqf::runtime::runtime::result execute_do(sqf::runtime::runtime& runtime, 
 {
     auto& context_active = runtime.context_active();
     auto& runtime_error = runtime.__runtime_error();
+    SQFVM_VERIF_SLICE(exit_after);
     while (true)
     {
+        SQFVM_VERIF_POINT("do.poll");
         if (runtime.is_exit_requested())
         {
 #ifdef DF__SQF_RUNTIME__ASSEMBLY_DEBUG_ON_EXECUTE
@@ -85,6 +91,7 @@ static sqf::runtime::runtime::result execute_do(sqf::runtime::runtime& runtime, 
 
             // Pop the actual frame
             context_active.pop_frame();
+            SQFVM_VERIF_EVENT(frame_done, runtime);
 
             // Readd return value of frame if it had one
             if (val.has_value())
@@ -204,6 +211,7 @@ static sqf::runtime::runtime::result execute_do(sqf::runtime::runtime& runtime, 
 
 
         (*instruction)->execute(runtime);
+        SQFVM_VERIF_EVENT(instruction_executed, runtime);
 
 
         if (!runtime_error)
@@ -252,6 +260,7 @@ static sqf::runtime::runtime::result execute_do(sqf::runtime::runtime& runtime, 
                 return sqf::runtime::runtime::result::runtime_error;
             }
         }
+        SQFVM_VERIF_EVENT(instruction_done, runtime);
     }
 }
 
@@ -262,8 +271,10 @@ sqf::runtime::runtime::result sqf::runtime::runtime::execute(sqf::runtime::runti
     switch (action)
     {
     case action::leave_scope:
+        SQFVM_VERIF_POINT("leave_scope.cas");
         if (m_run_atomic.compare_exchange_weak(expected, true, std::memory_order::memory_order_seq_cst, std::memory_order::memory_order_seq_cst))
         {
+            SQFVM_VERIF_EVENT(guard_enter, *this);
             m_is_exit_requested = false;
             m_is_halt_requested = false;
             auto scopeNum = m_context_active->frames_size() - 1;
@@ -302,6 +313,8 @@ sqf::runtime::runtime::result sqf::runtime::runtime::execute(sqf::runtime::runti
                 m_contexts.clear();
                 m_state = state::empty;
             }
+            SQFVM_VERIF_POINT("leave_scope.release");
+            SQFVM_VERIF_EVENT(guard_leave, *this);
             m_run_atomic = false;
 #ifdef DF__SQF_RUNTIME__ASSEMBLY_DEBUG_ON_EXECUTE
             std::cout << "\x1B[33m[ASSEMBLY ASSERT]\033[0m" <<
@@ -316,16 +329,21 @@ sqf::runtime::runtime::result sqf::runtime::runtime::execute(sqf::runtime::runti
         }
         break;
     case action::start:
+        SQFVM_VERIF_POINT("start.cas");
         if (m_run_atomic.compare_exchange_weak(expected, true, std::memory_order::memory_order_seq_cst, std::memory_order::memory_order_seq_cst))
         {
+            SQFVM_VERIF_EVENT(guard_enter, *this);
+            SQFVM_VERIF_POINT("start.reset_exit");
             m_is_exit_requested = false;
             m_is_halt_requested = false;
+            SQFVM_VERIF_POINT("start.set_running");
             m_state = state::running;
             while (!m_contexts.empty())
             {
                 for (size_t i = 0; i < m_contexts.size(); i++)
                 {
                     m_context_active = m_contexts[i];
+                    SQFVM_VERIF_EVENT(slice_begin, *this);
                     if (m_context_active->suspended())
                     {
                         if (m_context_active->wakeup_timestamp() <= std::chrono::system_clock::now())
@@ -342,6 +360,8 @@ sqf::runtime::runtime::result sqf::runtime::runtime::execute(sqf::runtime::runti
                     {
                         res = execute_do(*this, 150);
                     }
+                    SQFVM_VERIF_EVENT(slice_end, *this);
+                    SQFVM_VERIF_POINT("start.check_exit");
                     if (m_is_exit_requested)
                     {
                         m_contexts.clear();
@@ -364,6 +384,7 @@ sqf::runtime::runtime::result sqf::runtime::runtime::execute(sqf::runtime::runti
                         {
                             __logmsg(logmessage::runtime::ContextValuePrint(opt_val.value()));
                         }
+                        SQFVM_VERIF_EVENT(context_erased, *this);
                         m_contexts.erase(m_contexts.begin() + i);
                         if (m_contexts.empty())
                         {
@@ -381,6 +402,7 @@ sqf::runtime::runtime::result sqf::runtime::runtime::execute(sqf::runtime::runti
                 }
             }
         start_loop_exit:
+            SQFVM_VERIF_POINT("start.set_final_state");
             switch (res)
             {
             case sqf::runtime::runtime::result::empty:
@@ -395,12 +417,15 @@ sqf::runtime::runtime::result sqf::runtime::runtime::execute(sqf::runtime::runti
                 m_state = state::halted_error;
                 break;
             }
+            SQFVM_VERIF_POINT("start.check_exit_final");
             if (m_is_exit_requested)
             {
                 m_contexts.clear();
                 m_context_active = {};
                 m_state = state::empty;
             }
+            SQFVM_VERIF_POINT("start.release");
+            SQFVM_VERIF_EVENT(guard_leave, *this);
             m_run_atomic = false;
 #ifdef DF__SQF_RUNTIME__ASSEMBLY_DEBUG_ON_EXECUTE
             std::cout << "\x1B[33m[ASSEMBLY ASSERT]\033[0m" <<
@@ -415,12 +440,17 @@ sqf::runtime::runtime::result sqf::runtime::runtime::execute(sqf::runtime::runti
         }
         break;
     case action::assembly_step:
+        SQFVM_VERIF_POINT("assembly_step.cas");
         if (m_run_atomic.compare_exchange_weak(expected, true, std::memory_order::memory_order_seq_cst, std::memory_order::memory_order_seq_cst))
         {
+            SQFVM_VERIF_EVENT(guard_enter, *this);
+            SQFVM_VERIF_POINT("assembly_step.reset_exit");
             m_is_exit_requested = false;
             m_is_halt_requested = false;
+            SQFVM_VERIF_POINT("assembly_step.set_running");
             m_state = state::running;
             res = execute_do(*this, 1);
+            SQFVM_VERIF_POINT("assembly_step.set_final_state");
             switch (res)
             {
             case sqf::runtime::runtime::result::empty:
@@ -435,12 +465,15 @@ sqf::runtime::runtime::result sqf::runtime::runtime::execute(sqf::runtime::runti
                 m_state = state::halted_error;
                 break;
             }
+            SQFVM_VERIF_POINT("assembly_step.check_exit_final");
             if (m_is_exit_requested)
             {
                 m_contexts.clear();
                 m_context_active = {};
                 m_state = state::empty;
             }
+            SQFVM_VERIF_POINT("assembly_step.release");
+            SQFVM_VERIF_EVENT(guard_leave, *this);
             m_run_atomic = false;
 #ifdef DF__SQF_RUNTIME__ASSEMBLY_DEBUG_ON_EXECUTE
             std::cout << "\x1B[33m[ASSEMBLY ASSERT]\033[0m" <<
@@ -455,8 +488,10 @@ sqf::runtime::runtime::result sqf::runtime::runtime::execute(sqf::runtime::runti
         }
         break;
     case action::line_step:
+        SQFVM_VERIF_POINT("line_step.cas");
         if (m_run_atomic.compare_exchange_weak(expected, true, std::memory_order::memory_order_seq_cst, std::memory_order::memory_order_seq_cst))
         {
+            SQFVM_VERIF_EVENT(guard_enter, *this);
             m_is_exit_requested = false;
             m_is_halt_requested = false;
             bool success;
@@ -508,6 +543,8 @@ sqf::runtime::runtime::result sqf::runtime::runtime::execute(sqf::runtime::runti
                 m_context_active = {};
                 m_state = state::empty;
             }
+            SQFVM_VERIF_POINT("line_step.release");
+            SQFVM_VERIF_EVENT(guard_leave, *this);
             m_run_atomic = false;
 #ifdef DF__SQF_RUNTIME__ASSEMBLY_DEBUG_ON_EXECUTE
             std::cout << "\x1B[33m[ASSEMBLY ASSERT]\033[0m" <<
@@ -524,6 +561,7 @@ sqf::runtime::runtime::result sqf::runtime::runtime::execute(sqf::runtime::runti
 
 
     case action::stop:
+        SQFVM_VERIF_POINT("stop.read_state");
         if (m_state != state::running)
         {
             res = result::action_error;
@@ -534,11 +572,13 @@ sqf::runtime::runtime::result sqf::runtime::runtime::execute(sqf::runtime::runti
         }
         else
         {
+            SQFVM_VERIF_POINT("stop.set_exit");
             m_is_exit_requested = true;
             res = result::ok;
         }
         break;
     case action::abort:
+        SQFVM_VERIF_POINT("abort.read_state");
         if (m_state == state::running)
         {
             if (!m_run_atomic)
@@ -547,18 +587,24 @@ sqf::runtime::runtime::result sqf::runtime::runtime::execute(sqf::runtime::runti
             }
             else
             {
+                SQFVM_VERIF_POINT("abort.set_exit");
                 m_is_exit_requested = true;
                 res = result::ok;
             }
         }
         else if (m_state == state::halted_error || m_state == state::halted)
         {
+            SQFVM_VERIF_POINT("abort.cas");
             if (m_run_atomic.compare_exchange_weak(expected, true, std::memory_order::memory_order_seq_cst, std::memory_order::memory_order_seq_cst))
             {
+                SQFVM_VERIF_EVENT(guard_enter, *this);
+                SQFVM_VERIF_POINT("abort.clear");
                 m_contexts.clear();
                 m_context_active = {};
                 m_state = state::empty;
                 res = result::ok;
+                SQFVM_VERIF_POINT("abort.release");
+                SQFVM_VERIF_EVENT(guard_leave, *this);
                 m_run_atomic = false;
             }
             else
